@@ -16,6 +16,12 @@ INST = {
     "D3": dict(Cap=3, Labels=["a", "b"], Vals=["x"], MaxN=1),        # N+1st label guard reachable
     "E3": dict(Cap=3, Labels=["a", "b"], Vals=["x"], MaxN=2),        # 247,792 states / 5.6 M transitions
     "S3": dict(Cap=3, Labels=["a"], Vals=["x"], MaxN=1, MaxGroups=1, MaxGroupSize=2),  # scaled limits
+    # restricted alphabets (SodgR.tla): two/three groups alive, cross-group edges, slot recycling
+    "F4a": dict(Cap=4, Labels=["a"], Vals=["x"], MaxN=1, R=dict(BindPairs=[1, 2, 3, 12, 13, 23, 10, 32], PutIds=[1, 3], DataIds=[1, 3], AddIds=[0, 1, 2, 3])),
+    "F4b": dict(Cap=4, Labels=["a", "b"], Vals=["x"], MaxN=2, R=dict(BindPairs=[1, 23, 2, 31], PutIds=[1, 3], DataIds=[1, 3], AddIds=[0, 1, 2, 3])),
+    "F4c": dict(Cap=4, Labels=["a"], Vals=["x"], MaxN=1, R=dict(BindPairs=[1, 2, 3, 12, 13, 23, 10, 32, 20, 21, 30, 31], PutIds=[0, 1, 2, 3], DataIds=[0, 1, 2, 3], AddIds=[0, 1, 2, 3])),
+    "F5": dict(Cap=5, Labels=["a"], Vals=["x"], MaxN=1, R=dict(BindPairs=[1, 23, 2, 31, 4, 34], PutIds=[1, 3, 4], DataIds=[1, 3, 4], AddIds=[0, 1, 2, 3, 4])),
+    "S4": dict(Cap=4, Labels=["a"], Vals=["x"], MaxN=1, MaxGroups=1, MaxGroupSize=3, R=dict(BindPairs=[1, 23, 2, 31, 12], PutIds=[1, 3], DataIds=[1, 3], AddIds=[0, 1, 2, 3])),
 }
 # token -> concrete value maps, rotated over the label variants and the 8-byte boundary
 TOKENS = [
@@ -45,9 +51,29 @@ def cfg_mc(inst, spec="Spec", view="view", invariants=(), properties=(), extra_c
     return s + "CHECK_DEADLOCK FALSE\n"
 
 
+def int_set(xs):
+    return "{" + ", ".join(str(x) for x in xs) + "}"
+
+
+def r_consts(inst):
+    c = INST[inst] if isinstance(inst, str) else inst
+    r = c.get("R")
+    if not r:
+        return ""
+    return (" BindPairs = %s PutIds = %s DataIds = %s AddIds = %s WithNextId = %s"
+            % (int_set(r["BindPairs"]), int_set(r["PutIds"]), int_set(r["DataIds"]), int_set(r["AddIds"]),
+               "TRUE" if r.get("WithNextId") else "FALSE"))
+
+
+def emit_module(inst):
+    c = INST[inst] if isinstance(inst, str) else inst
+    return "SodgR" if c.get("R") else "SodgX"
+
+
 def cfg_emit(inst, extra_ops=()):
-    return ("INIT Init\nNEXT NextX\nVIEW view\nACTION_CONSTRAINT Emit\n"
-            + consts(inst, "Extra = " + tla_set(extra_ops)) + "CHECK_DEADLOCK FALSE\n")
+    nxt = "NextR" if emit_module(inst) == "SodgR" else "NextX"
+    return (f"INIT Init\nNEXT {nxt}\nVIEW view\nACTION_CONSTRAINT Emit\n"
+            + consts(inst, "Extra = " + tla_set(extra_ops) + r_consts(inst)) + "CHECK_DEADLOCK FALSE\n")
 
 
 SODG_PROPS = ["ShrinkOnlyByFirstRead", "DiesExactlyThen", "GroupRules", "OthersUntouched", "ReadBack", "AddBlankOrNothing"]
@@ -113,7 +139,7 @@ def e1_impl(run, acc, tier):
 
 # ----------------------------------------------------------------------------- E2
 def e2_product(run, acc, inst, cfgs, extra_ops=(), observers=(), budget=3000000):
-    ts, cached = vlib.emit_ts(run, "SodgX", cfg_emit(inst, extra_ops))
+    ts, cached = vlib.emit_ts(run, emit_module(inst), cfg_emit(inst, extra_ops))
     for (n, cap, tok) in cfgs:
         j = vlib.product(run, [ts], TOKENS[tok], n, cap, observers=observers, budget=budget)
         acc.states += j["product_states"]
@@ -253,8 +279,12 @@ def plan_gc(run, prop, tier):
         e2_product(run, acc, "D3", [(1, 3, 2)] if tier == "quick" else [(1, 3, 2), (1, 5, 0)])
     if prop in ("C03",) or tier == "thorough":
         e2_product(run, acc, "B3", [(1, 3, 1)])
-    if prop in ("C02", "C06"):
-        e2_product(run, acc, "S3", [(1, 3, 0)])
+    e2_product(run, acc, "F4a", [(1, 4, 1)])
+    if prop in ("C01", "C02", "C06") or tier == "thorough":
+        e2_product(run, acc, "F4b", [(2, 4, 0)])
+        e2_product(run, acc, "F5", [(1, 5, 2)])
+    if tier == "thorough":
+        e2_product(run, acc, "F4c", [(1, 4, 0)], budget=40000000)
     if tier == "thorough":
         e2_product(run, acc, "E3", [(2, 3, 0)], budget=40000000)
     # E3
